@@ -376,7 +376,7 @@ func runReplay(w *World, pkgPath, src, scratch string) (verdict, output string) 
 	os.WriteFile(ovFile, ovb, 0o644)
 	ctx, cancel := context.WithTimeout(context.Background(), 180*time.Second)
 	defer cancel()
-	cmd := exec.CommandContext(ctx, "bash", "-c", fmt.Sprintf("ulimit -v 8000000; cd %q && go test -tags verif -overlay %q -vet=off -count=1 -timeout 60s -run '^TestGovcReplay$' -v .", dir, ovFile))
+	cmd := exec.CommandContext(ctx, "bash", "-c", fmt.Sprintf("ulimit -v 8000000; cd %q && go test -tags verif,unit -overlay %q -vet=off -count=1 -timeout 120s -run '^TestGovcReplay$' -v .", dir, ovFile))
 	cmd.Env = append(os.Environ(), "GOFLAGS=-mod=mod", "GOPROXY=off", "GOSUMDB=off", "GOTOOLCHAIN=local")
 	var out bytes.Buffer
 	cmd.Stdout = &out
